@@ -181,8 +181,15 @@ def check_contract_premises(prog: Program, res: Result) -> None:
     res.ob(R, ok, ar.qualname, "identity when scale == 1 (guard idiom)", "apply_resizer's guard is not `scale != 1.0` without an else", ar.where)
     ap = prog.func(f"{RS}:find_padding_for_stride")
     res.touch(ap)
-    d = {norm(s.targets[0]): norm(s.value).replace(" ", "") for s in walk_function(ap.node) if isinstance(s, ast.Assign)}
-    ok = d.get("pad_height") == "(max_stride-image_height%max_stride)%max_stride" and d.get("pad_width") == "(max_stride-image_width%max_stride)%max_stride"
+    rts = [n for n in walk_function(ap.node) if isinstance(n, ast.Return) and isinstance(n.value, ast.Tuple) and len(n.value.elts) == 2]
+    d = [astq.norm(astq.expand_at(ap.node, e, rts[0])).replace(" ", "") for e in rts[0].value.elts] if len(rts) == 1 else []
+    pm = ap.pos_params
+
+    def _pad_form(t, size):
+        s_ = pm[2] if len(pm) > 2 else "max_stride"
+        return t in (f"({s_}-{size}%{s_})%{s_}", f"-{size}%{s_}", f"(-{size})%{s_}", f"({s_}-({size}%{s_}))%{s_}")
+
+    ok = len(d) == 2 and len(pm) >= 3 and _pad_form(d[0], pm[0]) and _pad_form(d[1], pm[1])
     res.ob(R, ok, ap.qualname, "pad = (s - size % s) % s per side", f"padding is computed as {d}", ap.where)
     aps = prog.func(f"{RS}:apply_pad_to_stride")
     c = [c for c, q in prog.calls_in(aps) if q == ap.qualname]
